@@ -9,7 +9,7 @@ CONSTANTS
   Roles = {"server", "client"}
   PmceSet = {FALSE, TRUE}
   PoolSet = {FALSE, TRUE}
-  Quick = FALSE
+  Quick = TRUE
 CONSTRAINT Emit
 INVARIANTS InvRefines InvWire InvCloseLast InvFailStop InvPool
 CHECK_DEADLOCK FALSE
